@@ -110,7 +110,7 @@ def body_paths(stmts, upd=()):
     elif isinstance(s, ast.Continue):
         yield ("back", upd)
     elif isinstance(s, (ast.Return, ast.Raise)):
-        yield ("exit", upd)
+        yield ("exit", upd + (s,))
     elif isinstance(s, (ast.With, ast.AsyncWith)):
         for k, u in body_paths(s.body, upd):
             if k == "fall":
